@@ -337,6 +337,7 @@ PROPS["C14"] = dict(
         R("C14.ssh_concurrent", "swarms", "TestC14SSH", 24, 800, race=True, quick=dict(shards=2, timeout=600)),
         R("C14.recycled_buffer_exposure", "swarms", "TestC14BufferReuse", 150, 8000),
         R("C14.ask_buffer_after_return", "swarms", "TestC14AskBufferAfterReturn", 12, 400, quick=dict(shards=2, timeout=600)),
+        R("C14.ask_storm_buffers", "swarms", "TestC14AskStormBuffers", 24, 1500, shrink=8, quick=dict(shards=3, timeout=600)),
     ],
 )
 
